@@ -21,9 +21,11 @@
      t :: identifier (4 bytes, big endian) ++ frame ++ pad, (t & 15) = len(frame).
    E2E_fast_packet_ebyte: the instance for the encoder's own rendering (Wire.enc_ebyte1: type byte 0x80 | len, zero padding).
    E2E_fast_undispatched / E2E_fast_frames_undispatched: a PGN without dispatcher — the bound definition, every payload (no Match rule is consulted).
+   E2E_fast_*_var: the same statements for every definition of the class var_def (variable-length strings, fields without
+     BitOffset, BitLengthField, INDIRECT_LOOKUP; SpecVar.v) with `spec_decode_var` in place of `spec_decode` (C01_var).
    Generic part: coq/theories/E2EFast.v (ctl_run_sim: a run of `_decode` on one key IS CtlFastBridge.c_run, hence
    FastPacket.run; FastPacketProofs.inverse_run = C03 transfers). *)
-From NV Require Import Base Bits Defn PyNum Fields Dispatch DispatchProofs Template Spec SpecProofs
+From NV Require Import Base Bits Defn PyNum Fields Dispatch DispatchProofs Template Spec SpecProofs SpecVar SpecVarProofs
                        Header HeaderProofs PyText Wire WireProofs DecoderCtl EndToEnd EndToEndProofs E2EFast.
 From NV Require FastPacket FastPacketProofs.
 From NVGen Require Import GenDb GenCode GenDisp GenLookups GenDbLookups.
@@ -198,6 +200,158 @@ Proof.
 Qed.
 Print Assumptions E2E_fast_undispatched.
 
+(* ====================================================================================================== *)
+(* the same for every definition of the class var_def, against the position-threading specification        *)
+(* ====================================================================================================== *)
+Theorem E2E_fast_frames_var : forall g d, In g db_groups -> in_scope g = true -> In d (bound_defs g) -> var_def d = true ->
+  forall ts_ok st ins pgn prio src dst seq fs payload,
+  Forall2 (parses_to ts_ok pgn prio src dst) ins fs -> reassembles seq fs payload ->
+  pgn = group_pgn g -> pgn <> 60928 ->
+  tbl_is_fast code_fast pgn = Ok (Some true) ->
+  (forall n, zlookup src (srcmap st) = Some n -> mfr_modelled n = true) ->
+  fresh_key seq (klookup (pgn, src, dst) (reasm st)) ->
+  spec_select g (le_int payload) = Some d ->
+  let res := e2e_expected_var SL SLB SLI d (le_int payload) src dst prio (zlookup src (srcmap st)) in
+  let st' := final_here ts_ok cfg0 st ins in
+  map snd (run_here ts_ok cfg0 st ins) = repeat (Ok None) (length fs - 1) ++ [res] /\
+  srcmap st' = srcmap st /\
+  (is_ok res = true -> klookup (pgn, src, dst) (reasm st') = None) /\
+  (forall k', k' <> (pgn, src, dst) -> klookup k' (reasm st') = klookup k' (reasm st)).
+Proof.
+  intros g d Hg Sc Hd S ts_ok st ins pgn prio src dst seq fs payload P Re Ep Hp Hf Hi Fr Sel.
+  pose proof (G_ok g Hg) as G.
+  pose proof E2E_side as Sd. rewrite forallb_forall in Sd. specialize (Sd g Hg).
+  rewrite forallb_forall in Sd. specialize (Sd d (bound_defs_in g d Hd)).
+  apply andb_true_iff in Sd. destruct Sd as [Pg A]. apply Z.eqb_eq in Pg.
+  unfold run_here, final_here, e2e_expected_var.
+  apply (e2e_fast_tables_of code_dec code_disp code_ids code_fast code_lookups code_bitlookups code_indirect
+           ts_ok (spec_decode_var SL SLB SLI) g d st ins pgn prio src dst seq fs payload (spec_head_var SL SLB SLI));
+    try assumption.
+  exact (C01_var_here g d Hg Hd S).
+Qed.
+Print Assumptions E2E_fast_frames_var.
+
+Theorem E2E_fast_any_entry_var : forall g d, In g db_groups -> in_scope g = true -> In d (bound_defs g) -> var_def d = true ->
+  forall ts_ok st ins pgn prio src dst seq payload,
+  Forall2 (parses_to ts_ok pgn prio src dst) ins (FastPacket.segment seq payload) ->
+  pgn = group_pgn g -> pgn <> 60928 ->
+  tbl_is_fast code_fast pgn = Ok (Some true) ->
+  (forall n, zlookup src (srcmap st) = Some n -> mfr_modelled n = true) ->
+  0 <= seq < 8 -> zlen payload <= 223 ->
+  fresh_key seq (klookup (pgn, src, dst) (reasm st)) ->
+  spec_select g (le_int payload) = Some d ->
+  let res := e2e_expected_var SL SLB SLI d (le_int payload) src dst prio (zlookup src (srcmap st)) in
+  let st' := final_here ts_ok cfg0 st ins in
+  map snd (run_here ts_ok cfg0 st ins) = repeat (Ok None) (length (FastPacket.segment seq payload) - 1) ++ [res] /\
+  srcmap st' = srcmap st /\
+  (is_ok res = true -> klookup (pgn, src, dst) (reasm st') = None) /\
+  (forall k', k' <> (pgn, src, dst) -> klookup k' (reasm st') = klookup k' (reasm st)).
+Proof.
+  intros g d Hg Sc Hd S ts_ok st ins pgn prio src dst seq payload P Ep Hp Hf Hi Hs Hl Fr Sel.
+  exact (E2E_fast_frames_var g d Hg Sc Hd S ts_ok st ins pgn prio src dst seq (FastPacket.segment seq payload) payload
+           P (segment_reassembles seq payload Hs Hl) Ep Hp Hf Hi Fr Sel).
+Qed.
+Print Assumptions E2E_fast_any_entry_var.
+
+Theorem E2E_fast_packet_var : forall g d, In g db_groups -> in_scope g = true -> In d (bound_defs g) -> var_def d = true ->
+  forall ts_ok st id ins seq payload,
+  0 <= id < 536870912 ->
+  Forall2 (ebyte_of id) ins (FastPacket.segment seq payload) ->
+  let '(pgn, src, dst, prio) := extract_header id in
+  pgn = group_pgn g -> pgn <> 60928 ->
+  tbl_is_fast code_fast pgn = Ok (Some true) ->
+  (forall n, zlookup src (srcmap st) = Some n -> mfr_modelled n = true) ->
+  0 <= seq < 8 -> zlen payload <= 223 ->
+  fresh_key seq (klookup (pgn, src, dst) (reasm st)) ->
+  spec_select g (le_int payload) = Some d ->
+  let res := e2e_expected_var SL SLB SLI d (le_int payload) src dst prio (zlookup src (srcmap st)) in
+  let st' := final_here ts_ok cfg0 st ins in
+  map snd (run_here ts_ok cfg0 st ins) = repeat (Ok None) (length (FastPacket.segment seq payload) - 1) ++ [res] /\
+  srcmap st' = srcmap st /\
+  (is_ok res = true -> klookup (pgn, src, dst) (reasm st') = None) /\
+  (forall k', k' <> (pgn, src, dst) -> klookup k' (reasm st') = klookup k' (reasm st)).
+Proof.
+  intros g d Hg Sc Hd S ts_ok st id ins seq payload Hid E.
+  destruct (extract_header id) as [[[pgn src] dst] prio] eqn:Hh.
+  intros Ep Hp Hf Hi Hs Hl Fr Sel.
+  apply (E2E_fast_any_entry_var g d Hg Sc Hd S ts_ok st ins pgn prio src dst seq payload); try assumption.
+  apply (ebyte_parses ts_ok id ins (FastPacket.segment seq payload) pgn src dst prio); [lia | exact Hh | exact E].
+Qed.
+Print Assumptions E2E_fast_packet_var.
+
+Theorem E2E_fast_packet_ebyte_var : forall g d, In g db_groups -> in_scope g = true -> In d (bound_defs g) -> var_def d = true ->
+  forall ts_ok st id win seq payload,
+  0 <= id < 536870912 ->
+  let '(pgn, src, dst, prio) := extract_header id in
+  pgn = group_pgn g -> pgn <> 60928 ->
+  tbl_is_fast code_fast pgn = Ok (Some true) ->
+  (forall n, zlookup src (srcmap st) = Some n -> mfr_modelled n = true) ->
+  0 <= seq < 8 -> zlen payload <= 223 ->
+  fresh_key seq (klookup (pgn, src, dst) (reasm st)) ->
+  spec_select g (le_int payload) = Some d ->
+  let ins := ebyte_inputs id win (FastPacket.segment seq payload) in
+  let res := e2e_expected_var SL SLB SLI d (le_int payload) src dst prio (zlookup src (srcmap st)) in
+  let st' := final_here ts_ok cfg0 st ins in
+  map snd (run_here ts_ok cfg0 st ins) = repeat (Ok None) (length (FastPacket.segment seq payload) - 1) ++ [res] /\
+  srcmap st' = srcmap st /\
+  (is_ok res = true -> klookup (pgn, src, dst) (reasm st') = None) /\
+  (forall k', k' <> (pgn, src, dst) -> klookup k' (reasm st') = klookup k' (reasm st)).
+Proof.
+  intros g d Hg Sc Hd S ts_ok st id win seq payload Hid.
+  pose proof (E2E_fast_packet_var g d Hg Sc Hd S ts_ok st id (ebyte_inputs id win (FastPacket.segment seq payload)) seq payload Hid
+                (ebyte_canonical id win _ (segment_le8 seq payload))) as T.
+  destruct (extract_header id) as [[[pgn src] dst] prio]. exact T.
+Qed.
+Print Assumptions E2E_fast_packet_ebyte_var.
+
+Theorem E2E_fast_frames_undispatched_var : forall g d, In g db_groups -> is_dispatched g = false -> In d (bound_defs g) -> var_def d = true ->
+  forall ts_ok st ins pgn prio src dst seq fs payload,
+  Forall2 (parses_to ts_ok pgn prio src dst) ins fs -> reassembles seq fs payload ->
+  pgn = group_pgn g -> pgn <> 60928 ->
+  tbl_is_fast code_fast pgn = Ok (Some true) ->
+  (forall n, zlookup src (srcmap st) = Some n -> mfr_modelled n = true) ->
+  fresh_key seq (klookup (pgn, src, dst) (reasm st)) ->
+  let res := e2e_expected_var SL SLB SLI d (le_int payload) src dst prio (zlookup src (srcmap st)) in
+  let st' := final_here ts_ok cfg0 st ins in
+  map snd (run_here ts_ok cfg0 st ins) = repeat (Ok None) (length fs - 1) ++ [res] /\
+  srcmap st' = srcmap st /\
+  (is_ok res = true -> klookup (pgn, src, dst) (reasm st') = None) /\
+  (forall k', k' <> (pgn, src, dst) -> klookup k' (reasm st') = klookup k' (reasm st)).
+Proof.
+  intros g d Hg D Hd S ts_ok st ins pgn prio src dst seq fs payload P Re Ep Hp Hf Hi Fr.
+  pose proof (G_ok g Hg) as G.
+  pose proof E2E_side as Sd. rewrite forallb_forall in Sd. specialize (Sd g Hg).
+  rewrite forallb_forall in Sd. specialize (Sd d (bound_defs_in g d Hd)).
+  apply andb_true_iff in Sd. destruct Sd as [Pg A]. apply Z.eqb_eq in Pg.
+  unfold run_here, final_here, e2e_expected_var.
+  apply (e2e_fast_tables_undispatched_of code_dec code_disp code_ids code_fast code_lookups code_bitlookups code_indirect
+           ts_ok (spec_decode_var SL SLB SLI) g d st ins pgn prio src dst seq fs payload (spec_head_var SL SLB SLI));
+    try assumption.
+  exact (C01_var_here g d Hg Hd S).
+Qed.
+Print Assumptions E2E_fast_frames_undispatched_var.
+
+Theorem E2E_fast_undispatched_var : forall g d, In g db_groups -> is_dispatched g = false -> In d (bound_defs g) -> var_def d = true ->
+  forall ts_ok st ins pgn prio src dst seq payload,
+  Forall2 (parses_to ts_ok pgn prio src dst) ins (FastPacket.segment seq payload) ->
+  pgn = group_pgn g -> pgn <> 60928 ->
+  tbl_is_fast code_fast pgn = Ok (Some true) ->
+  (forall n, zlookup src (srcmap st) = Some n -> mfr_modelled n = true) ->
+  0 <= seq < 8 -> zlen payload <= 223 ->
+  fresh_key seq (klookup (pgn, src, dst) (reasm st)) ->
+  let res := e2e_expected_var SL SLB SLI d (le_int payload) src dst prio (zlookup src (srcmap st)) in
+  let st' := final_here ts_ok cfg0 st ins in
+  map snd (run_here ts_ok cfg0 st ins) = repeat (Ok None) (length (FastPacket.segment seq payload) - 1) ++ [res] /\
+  srcmap st' = srcmap st /\
+  (is_ok res = true -> klookup (pgn, src, dst) (reasm st') = None) /\
+  (forall k', k' <> (pgn, src, dst) -> klookup k' (reasm st') = klookup k' (reasm st)).
+Proof.
+  intros g d Hg D Hd S ts_ok st ins pgn prio src dst seq payload P Ep Hp Hf Hi Hs Hl Fr.
+  exact (E2E_fast_frames_undispatched_var g d Hg D Hd S ts_ok st ins pgn prio src dst seq (FastPacket.segment seq payload) payload
+           P (segment_reassembles seq payload Hs Hl) Ep Hp Hf Hi Fr).
+Qed.
+Print Assumptions E2E_fast_undispatched_var.
+
 (* ---- coverage: fixed-layout bound definitions covered by OblE2E (E2E_any_entry or E2E_undispatched); of which their PGN
         is a fast-packet PGN of the code = covered frame by frame by E2E_fast_any_entry or E2E_fast_undispatched; of which
         by E2E_fast_any_entry alone; single-frame ones (OblE2E); neither (is_fast raises / no is_fast function) ---- *)
@@ -209,6 +363,15 @@ Definition fast_covered : list (list dbdef * dbdef) := filter (fun gd => fast_ki
 Eval vm_compute in (77777%Z, length covered_all, length fast_covered_all, length fast_covered,
                     length (filter (fast_kind false) covered_all),
                     length (filter (fun gd => negb (fast_kind true gd) && negb (fast_kind false gd)) covered_all)).
+(* the _var theorems: bound definitions of var_def covered by OblE2E's _var theorems; of which fast-packet PGNs (covered
+   frame by frame by E2E_fast_any_entry_var / E2E_fast_undispatched_var); of which by E2E_fast_any_entry_var alone; of the
+   fast ones, not fixed-layout; single-frame; neither *)
+Definition fast_covered_all_var : list (list dbdef * dbdef) := filter (fun gd => fast_kind true gd && not_claim gd) covered_all_var.
+Definition fast_covered_var : list (list dbdef * dbdef) := filter (fun gd => fast_kind true gd && not_claim gd) covered_var.
+Eval vm_compute in (77779%Z, length covered_all_var, length fast_covered_all_var, length fast_covered_var,
+                    length (filter (fun gd => negb (simple_def (snd gd))) fast_covered_all_var),
+                    length (filter (fast_kind false) covered_all_var),
+                    length (filter (fun gd => negb (fast_kind true gd) && negb (fast_kind false gd)) covered_all_var)).
 (* the fast-packet PGNs covered, with the Length of the definition *)
 Eval vm_compute in (77778%Z, map (fun gd => (Defn.d_pgn (snd gd), Defn.d_length (snd gd))) fast_covered_all).
 
@@ -276,3 +439,60 @@ Example E2E_fast_evaluated :
    final_here (fun _ _ => false) cfg0 init ex_ins)
   = ([0; 0; 128275 * 8 + 6], init).
 Proof. vm_compute. reflexivity. Qed.
+
+(* ---- non-vacuity of the _var theorems: PGN 126998 (three STRING_LAU), the 19-byte payload of
+        tests/test_decoder.py::test_STRING_LAU_parse (OblE2E.ex_vdata) sent as a fast packet: priority 6, source 1,
+        counter 3, three EByte packets as the encoder renders them.  The first two calls return None, the third returns the
+        message whose body is the serialisation of the fields 'hello', 'wórld', None — the same message
+        decode_basic_string returns for the combined line (OblE2E.E2E_var_nonvacuous). ---- *)
+Definition ex_vid : Z := 6 * 67108864 + 126998 * 256 + 1.
+Definition ex_vins : list einput := ebyte_inputs ex_vid false (FastPacket.segment 3 ex_vdata).
+Example E2E_fast_var_nonvacuous :
+  exists d m', In ex_vg db_groups /\ In d (bound_defs ex_vg) /\ var_def d = true /\ simple_def d = false /\
+    extract_header ex_vid = (126998, 1, 255, 6) /\ tbl_is_fast code_fast 126998 = Ok (Some true) /\
+    map e_data ex_vins = [ [136; 25; 240; 22; 1;  96; 19; 7; 1; 104; 101; 108; 108];
+                           [136; 25; 240; 22; 1;  97; 111; 12; 0; 119; 0; 243; 0];
+                           [135; 25; 240; 22; 1;  98; 114; 0; 108; 0; 100; 0; 0] ] /\
+    spec_decode_var SL SLB SLI (le_int ex_vdata) d = Ok m' /\ ex_vtexts m' = true /\
+    map snd (run_here (fun _ _ => false) cfg0 init ex_vins)
+    = [Ok None; Ok None;
+       Ok (Some ({| DecoderCtl.m_pgn := 126998; DecoderCtl.m_id := bytes_of_str (Defn.d_id d);
+                    m_src := 1; m_dst := 255; m_iso := None; m_body := ser_msg m' |}, 6))] /\
+    klookup (126998, 1, 255) (reasm (final_here (fun _ _ => false) cfg0 init ex_vins)) = None.
+Proof.
+  assert (Hg : In ex_vg db_groups).
+  { unfold ex_vg. destruct (find (fun g => group_pgn g =? 126998) db_groups) as [g|] eqn:F.
+    - apply find_some in F. tauto.
+    - exfalso. vm_compute in F. discriminate. }
+  destruct (spec_select ex_vg (le_int ex_vdata)) as [d|] eqn:S; [|exfalso; vm_compute in S; discriminate].
+  pose proof (spec_select_in _ _ _ S) as I.
+  assert (A : forallb (fun d => var_def d && negb (simple_def d) && (Defn.d_pgn d =? 126998)
+                                && match spec_decode_var SL SLB SLI (le_int ex_vdata) d with Ok m => ex_vtexts m | _ => false end)
+                      ex_vg = true) by (vm_compute; reflexivity).
+  rewrite forallb_forall in A. specialize (A d I).
+  apply andb_true_iff in A. destruct A as [A At]. apply andb_true_iff in A. destruct A as [A Ap].
+  apply andb_true_iff in A. destruct A as [Av As]. apply negb_true_iff in As. apply Z.eqb_eq in Ap.
+  destruct (spec_decode_var SL SLB SLI (le_int ex_vdata) d) as [m'| |] eqn:E; try discriminate At.
+  exists d, m'. split; [exact Hg|].
+  assert (Hd : In d (bound_defs ex_vg)).
+  { assert (B : bound_defs ex_vg = ex_vg) by (vm_compute; reflexivity). rewrite B. exact I. }
+  split; [exact Hd|]. split; [exact Av|]. split; [exact As|].
+  split; [vm_compute; reflexivity|]. split; [vm_compute; reflexivity|]. split; [vm_compute; reflexivity|].
+  split; [exact E|]. split; [exact At|].
+  pose proof (E2E_fast_packet_ebyte_var ex_vg d Hg eq_refl Hd Av (fun _ _ => false) init ex_vid false 3 ex_vdata
+                ltac:(unfold ex_vid; lia)) as T.
+  assert (X : extract_header ex_vid = (126998, 1, 255, 6)) by (vm_compute; reflexivity).
+  rewrite X in T. cbv beta iota zeta in T. fold ex_vins in T.
+  assert (H1 : 126998 = group_pgn ex_vg) by (vm_compute; reflexivity).
+  assert (H2 : 126998 <> 60928) by discriminate.
+  assert (H3 : tbl_is_fast code_fast 126998 = Ok (Some true)) by (vm_compute; reflexivity).
+  assert (H4 : forall n, zlookup 1 (srcmap init) = Some n -> mfr_modelled n = true) by (intros n Hn; discriminate).
+  assert (H5 : 0 <= 3 < 8) by lia.
+  assert (H6 : zlen ex_vdata <= 223) by (vm_compute; discriminate).
+  assert (H7 : fresh_key 3 (klookup (126998, 1, 255) (reasm init))) by (left; reflexivity).
+  destruct (T H1 H2 H3 H4 H5 H6 H7 S) as (T1 & _ & T3 & _). clear T.
+  assert (Ln : length (FastPacket.segment 3 ex_vdata) = 3%nat) by (vm_compute; reflexivity).
+  rewrite Ln in T1. cbn [Nat.sub repeat app] in T1.
+  unfold e2e_expected_var, e2e_expected_of in T1, T3. rewrite E in T1, T3. rewrite Ap in T1.
+  split; [exact T1 | exact (T3 eq_refl)].
+Qed.
